@@ -197,9 +197,10 @@ def abortIsNotice (c : Cfg) (i : Nat) : Bool :=
 
 /-- May a message still get through on this route?  A response stream that the client has just abandoned (its
 caller's context ended) may still carry what the server wrote before the client stopped reading: whether a
-notice written in that instant arrives is a race. -/
+notice written in that instant arrives is a race; likewise a notice written just before the enclosing handler's
+response (which ends the stream) is delivered, one written just after is refused. -/
 def routeMay (c : Cfg) (s : St) : Route → Bool
-  | .reqStream p => s.req p == .running
+  | .reqStream p => s.req p == .running || s.req p == .finished
   | r => routeExists c s r
 
 def payload (c : Cfg) (i : Nat) : Option Nat := if (c.info i).plain then none else some i
